@@ -75,29 +75,32 @@ structure TxResult (ρ : Type) where
   deriving DecidableEq
 
 /-- an application: begin-blockers and end-blockers in module order, and a transaction runner.
+    `β` is what a block brings besides its transactions (header: height, time, proposer, last-commit votes) together
+    with the outcomes of components that are inputs to the model (wasm script results, route results).
     A begin/end-blocker may fail (`.error`: FinalizeBlock returns an error or the node panics); a transaction
     cannot fail the block: `runTx` returns the state to continue from (the SDK discards a failed transaction's writes
     and recovers its panics) and the result.  Everything receives the schedule. -/
-structure App (σ τ ρ ε : Type) where
-  begins : List (Sched → σ → Except ε σ)
-  ends : List (Sched → σ → Except ε σ)
-  runTx : Sched → σ → τ → σ × TxResult ρ
+structure App (σ β τ ρ ε : Type) where
+  begins : List (Sched → β → σ → Except ε σ)
+  ends : List (Sched → β → σ → Except ε σ)
+  runTx : Sched → β → σ → τ → σ × TxResult ρ
 
-def runPhase {σ ε : Type} (o : Sched) (fs : List (Sched → σ → Except ε σ)) (s : σ) : Except ε σ := fs.foldlM (fun s f => f o s) s
+def runPhase {σ β ε : Type} (o : Sched) (b : β) (fs : List (Sched → β → σ → Except ε σ)) (s : σ) : Except ε σ :=
+  fs.foldlM (fun s f => f o b s) s
 
-def runTxs {σ τ ρ ε : Type} (app : App σ τ ρ ε) (o : Sched) (s : σ) (txs : List τ) : σ × List (TxResult ρ) :=
-  txs.foldl (fun (acc : σ × List (TxResult ρ)) tx => let (s', r) := app.runTx o acc.1 tx; (s', acc.2 ++ [r])) (s, [])
+def runTxs {σ β τ ρ ε : Type} (app : App σ β τ ρ ε) (o : Sched) (b : β) (s : σ) (txs : List τ) : σ × List (TxResult ρ) :=
+  txs.foldl (fun (acc : σ × List (TxResult ρ)) tx => let (s', r) := app.runTx o b acc.1 tx; (s', acc.2 ++ [r])) (s, [])
 
 /-- FinalizeBlock: begin-blockers, transactions in order, end-blockers -/
-def finalize {σ τ ρ ε : Type} (app : App σ τ ρ ε) (o : Sched) (s : σ) (txs : List τ) : Except ε (σ × List (TxResult ρ)) := do
-  let s1 ← runPhase o app.begins s
-  let (s2, rs) := runTxs app o s1 txs
-  let s3 ← runPhase o app.ends s2
+def finalize {σ β τ ρ ε : Type} (app : App σ β τ ρ ε) (o : Sched) (s : σ) (blk : β × List τ) : Except ε (σ × List (TxResult ρ)) := do
+  let s1 ← runPhase o blk.1 app.begins s
+  let (s2, rs) := runTxs app o blk.1 s1 blk.2
+  let s3 ← runPhase o blk.1 app.ends s2
   pure (s3, rs)
 
 /-- a node: executes blocks from genesis, each block under its own schedule (`os h` for the h-th block);
     observes per block the committed state (whose Merkle root is the app hash) and the transaction results -/
-def runChain {σ τ ρ ε : Type} (app : App σ τ ρ ε) (os : Nat → Sched) : Nat → σ → List (List τ) → Except ε (List (σ × List (TxResult ρ)))
+def runChain {σ β τ ρ ε : Type} (app : App σ β τ ρ ε) (os : Nat → Sched) : Nat → σ → List (β × List τ) → Except ε (List (σ × List (TxResult ρ)))
   | _, _, [] => .ok []
   | h, s, b :: bs =>
     match finalize app (os h) s b with
@@ -116,16 +119,17 @@ def guarded {σ ε : Type} (f : σ → Except ε σ) (s : σ) : σ × Option ε 
   | .error e => (s, some e)
 
 /-- the app ignores the schedule (no map range reaches state, gas or results) -/
-def App.OrderFree {σ τ ρ ε : Type} (app : App σ τ ρ ε) : Prop :=
-  (∀ f ∈ app.begins, ∀ o₁ o₂ : Sched, o₁.Valid → o₂.Valid → ∀ s, f o₁ s = f o₂ s) ∧
-  (∀ f ∈ app.ends, ∀ o₁ o₂ : Sched, o₁.Valid → o₂.Valid → ∀ s, f o₁ s = f o₂ s) ∧
-  (∀ o₁ o₂ : Sched, o₁.Valid → o₂.Valid → ∀ s tx, app.runTx o₁ s tx = app.runTx o₂ s tx)
+def App.OrderFree {σ β τ ρ ε : Type} (app : App σ β τ ρ ε) : Prop :=
+  (∀ f ∈ app.begins, ∀ o₁ o₂ : Sched, o₁.Valid → o₂.Valid → ∀ b s, f o₁ b s = f o₂ b s) ∧
+  (∀ f ∈ app.ends, ∀ o₁ o₂ : Sched, o₁.Valid → o₂.Valid → ∀ b s, f o₁ b s = f o₂ b s) ∧
+  (∀ o₁ o₂ : Sched, o₁.Valid → o₂.Valid → ∀ b s tx, app.runTx o₁ b s tx = app.runTx o₂ b s tx)
 
-/-- begin/end-blockers are total on states satisfying `Inv` and keep it; transactions keep it -/
-def App.TotalOn {σ τ ρ ε : Type} (app : App σ τ ρ ε) (Inv : σ → Prop) : Prop :=
-  (∀ f ∈ app.begins, ∀ o s, Inv s → ∃ s', f o s = .ok s' ∧ Inv s') ∧
-  (∀ f ∈ app.ends, ∀ o s, Inv s → ∃ s', f o s = .ok s' ∧ Inv s') ∧
-  (∀ o s tx, Inv s → Inv (app.runTx o s tx).1)
+/-- begin/end-blockers are total on states satisfying `Inv` (for block environments satisfying `EnvOk`) and keep it;
+    transactions keep it -/
+def App.TotalOn {σ β τ ρ ε : Type} (app : App σ β τ ρ ε) (EnvOk : β → Prop) (Inv : σ → Prop) : Prop :=
+  (∀ f ∈ app.begins, ∀ o b s, EnvOk b → Inv s → ∃ s', f o b s = .ok s' ∧ Inv s') ∧
+  (∀ f ∈ app.ends, ∀ o b s, EnvOk b → Inv s → ∃ s', f o b s = .ok s' ∧ Inv s') ∧
+  (∀ o b s tx, EnvOk b → Inv s → Inv (app.runTx o b s tx).1)
 
 /-! ### module order (names as written in app/modules.go) -/
 def beginOrder : List String := ["capabilitytypes", "minttypes", "rollingseedtypes", "oracletypes", "tsstypes", "bandtsstypes", "restaketypes",
